@@ -12,24 +12,53 @@ import struct
 
 from vf import core, dnsref
 
-QUESTIONS = {  # question-section labels of the model -> concrete question
-    "A": ((b"a", b"example", b"com"), 1),
-    "B": ((b"b", b"example", b"org"), 28),
-    "C": ((b"xn--bcher-kva", b"example"), 16),
-    "D": ((b"_sip", b"_tcp", b"d", b"example", b"net"), 33),
+# question sections of the model: (name class, spelling, kind) -> concrete question.  Spellings of one name differ
+# only in letter case (what a DNS 0x20 client sends); "same question section" is judged on the exact spelling.
+QUESTIONS = {
+    ("A", 1, "ascii"): ((b"a", b"example", b"com"), 1),
+    ("A", 2, "ascii"): ((b"A", b"eXaMple", b"COM"), 1),
+    ("A", 3, "ascii"): ((b"a", b"EXAMPLE", b"cOm"), 1),
+    ("B", 1, "ascii"): ((b"b", b"example", b"org"), 28),
+    ("B", 2, "ascii"): ((b"B", b"Example", b"ORG"), 28),
+    ("C", 1, "idn"): ((b"xn--bcher-kva", b"example"), 16),
+    ("C", 2, "idn"): ((b"xn--BCHER-kva", b"EXAMPLE"), 16),  # lower-case ACE prefix: goes through the idna codec
+    ("C", 3, "idn"): ((b"xn--bcher-kva", b"EXAMPLE"), 16),  # ... and comes back like this
+    ("C", 4, "idn"): ((b"XN--bcher-KVA", b"example"), 16),  # upper-case prefix: treated as plain ASCII
+    ("D", 1, "ascii"): ((b"_sip", b"_tcp", b"d", b"example", b"net"), 33),
+    ("D", 2, "ascii"): ((b"_SIP", b"_tcp", b"D", b"Example", b"NET"), 33),
 }
 _OPTS = None
+NOQ = ("", 0, "")
+
+
+def qt(q):
+    return (str(q[0]), int(q[1]), str(q[2]))
 
 
 def q_bytes(mid, q, rd=1, op=0) -> bytes:
-    name, qtype = QUESTIONS[q]
+    name, qtype = QUESTIONS[qt(q)]
     return dnsref.Builder(mid & 0xFFFF, dnsref.flags(rd=rd, opcode=op)).question(name, qtype=qtype).bytes()
 
 
 def r_bytes(mid, q, rng: random.Random | None = None) -> bytes:
-    name, qtype = QUESTIONS[q]
+    name, qtype = QUESTIONS[qt(q)]
     b = dnsref.Builder(mid & 0xFFFF, dnsref.flags(qr=1, rd=1, ra=1)).question(name, qtype=qtype)
     b.rr(1, ptr=12, rtype=1, ttl=60, rdata=bytes([10, 0, 0, (mid % 250) + 1]))
+    return b.bytes()
+
+
+def exact_qsection(m: dnsref.Msg):
+    """question section as written on the wire, letter case included"""
+    return tuple((tuple(n), t, c) for n, t, c in m.questions)
+
+
+def echo_reply(query: bytes) -> bytes:
+    """an upstream answer that echoes id and question section of the forwarded query byte for byte"""
+    m = dnsref.decode(query)
+    b = dnsref.Builder(m.id, dnsref.flags(qr=1, rd=1, ra=1))
+    for name, t, c in m.questions:
+        b.question(name, qtype=t, qclass=c)
+    b.rr(1, ptr=12, rtype=1, ttl=60, rdata=bytes([10, 0, 0, (m.id % 250) + 1]))
     return b.bytes()
 
 
@@ -58,9 +87,11 @@ class Run:
         self.layer = dnslayer.DNSLayer(self.ctx)
         self.snaps: dict[int, dict] = {}
         self.d = sansio.Driver(self.ctx, self.layer, on_hook=self._on_hook)
-        self.qlabel: dict = {}  # question section (reference reading) -> label
+        self.qlabel: dict = {}  # question section (exact reading, case included) -> [name, spelling, kind]
+        self.qfold: dict = {}  # case-folded section -> (name, kind)
         for lbl, (name, qtype) in QUESTIONS.items():
-            self.qlabel[((dnsref.lower(name), qtype, 1),)] = lbl
+            self.qlabel[((tuple(name), qtype, 1),)] = list(lbl)
+            self.qfold[((dnsref.lower(name), qtype, 1),)] = (lbl[0], lbl[2])
         self.addon_objs: set[int] = set()
         self.seen_resp: set[int] = set()
         self.keep: list = []
@@ -76,27 +107,38 @@ class Run:
         self.pos = len(self.d.log)
 
     # -- projections ---------------------------------------------------------------------------------
-    def _label(self, qsection) -> str:
+    def _label(self, qsection) -> list:
+        """[name class, spelling, kind] of a question section; spellings not in the table are numbered from 100"""
         lbl = self.qlabel.get(qsection)
         if lbl is None:
-            lbl = self.qlabel[qsection] = f"X{len(self.qlabel)}"
-        return lbl
+            try:
+                fold = tuple((dnsref.lower(n), t, c) for n, t, c in qsection)
+            except Exception:
+                fold = None
+            known = self.qfold.get(fold)
+            if known:
+                n = 100 + sum(1 for v in self.qlabel.values() if v[0] == known[0] and v[1] >= 100)
+                lbl = [known[0], n, known[1]]
+            else:
+                lbl = [f"X{len(self.qlabel)}", 1, "other"]
+            self.qlabel[qsection] = lbl
+        return list(lbl)
 
-    def _msg_q(self, m) -> str:
-        """question label of a mitmproxy DNSMessage, read from its fields (not through its encoder)"""
+    def _msg_q(self, m) -> list:
+        """question section of a mitmproxy DNSMessage, read from its fields (not through its encoder)"""
         try:
-            sect = tuple((tuple(l.encode("idna").lower() for l in q.name.split(".") if l), q.type, q.class_)
+            sect = tuple((tuple(l.encode("idna") for l in q.name.split(".") if l), q.type, q.class_)
                          for q in m.questions)
         except Exception:
-            sect = ("unreadable", repr(m.questions))
+            sect = (("unreadable", repr(m.questions), 0),)
         return self._label(sect)
 
     def _on_hook(self, d, cmd):
         flow = cmd.args()[0]
         req = getattr(flow, "request", None)
         resp = getattr(flow, "response", None)
-        snap = {"k": "hook", "name": cmd.name, "has_req": req is not None, "rid": 0, "rq": "", "rrd": 0, "rop": 0,
-                "has_resp": resp is not None, "pid": 0, "pq": "", "porigin": "", "fresh": False}
+        snap = {"k": "hook", "name": cmd.name, "has_req": req is not None, "rid": 0, "rq": list(NOQ), "rrd": 0,
+                "rop": 0, "has_resp": resp is not None, "pid": 0, "pq": list(NOQ), "porigin": "", "fresh": False}
         if req is not None:
             snap.update(rid=req.id, rq=self._msg_q(req), rrd=int(bool(req.recursion_desired)), rop=req.op_code)
         if resp is not None:
@@ -126,18 +168,19 @@ class Run:
                 if e["c"] == "client":
                     origin = "synth" if self.last_hook == "dns_error" else (self.last_hook_origin or "upstream")
                     if m is None:
-                        self.trace.append({"k": "to_client", "id": -1, "q": "undecodable", "qr": 0, "rcode": 0, "op": 0,
+                        self.trace.append({"k": "to_client", "id": -1, "q": ["undecodable", 0, ""], "qr": 0, "rcode": 0, "op": 0,
                                            "rd": 0, "origin": origin})
                     else:
-                        self.trace.append({"k": "to_client", "id": m.id, "q": self._label(m.qsection()), "qr": m.qr,
+                        self.trace.append({"k": "to_client", "id": m.id, "q": self._label(exact_qsection(m)), "qr": m.qr,
                                            "rcode": m.rcode, "op": m.opcode, "rd": m.rd, "origin": origin})
                 else:
                     if m is None:
-                        self.trace.append({"k": "to_server", "id": -1, "q": "undecodable"})
+                        self.trace.append({"k": "to_server", "id": -1, "q": ["undecodable", 0, ""]})
                     else:
-                        self.trace.append({"k": "to_server", "id": m.id, "q": self._label(m.qsection())})
-                        if self.auto:  # segmentation runs: the upstream answers every forwarded query
-                            self._put("server", r_bytes(m.id, self._label(m.qsection())), m.id, self._label(m.qsection()))
+                        ql = self._label(exact_qsection(m))
+                        self.trace.append({"k": "to_server", "id": m.id, "q": ql})
+                        if self.auto:  # segmentation runs: the upstream answers every forwarded query, echoing it
+                            self._put("server", echo_reply(data), m.id, ql)
             elif e["t"] == "close":
                 self.trace.append({"k": "close", "c": "client" if e["c"] == "client" else "server"})
 
@@ -173,14 +216,14 @@ class Run:
     def query(self, mid, q, rd, op=0) -> bool:
         if not self.ctx.client.connected:
             return False
-        self.trace.append({"k": "query", "id": mid, "q": q, "rd": rd, "op": op})
+        self.trace.append({"k": "query", "id": mid, "q": list(qt(q)), "rd": rd, "op": op})
         self._put("client", q_bytes(mid, q, rd, op), mid, q)
         return True
 
     def reply(self, mid, q) -> bool:
         if not self.ctx.server.connected:
             return False
-        self.trace.append({"k": "reply", "id": mid, "q": q})
+        self.trace.append({"k": "reply", "id": mid, "q": list(qt(q))})
         self._put("server", r_bytes(mid, q), mid, q)
         return True
 
@@ -306,7 +349,7 @@ def run_byte_seg(sc: dict) -> list[dict]:
         run = Run("tcp", True, True, trace, sc["seed"], byte_tokens=True)
         for i, kind in enumerate(sc["plan"]):
             if kind == "q":
-                run.query(sc["ids"][i], "ABCD"[i % 4], 1)
+                run.query(sc["ids"][i], sc["qs"][i], 1)
             elif kind == "zero":
                 run.zero()
             else:
@@ -348,11 +391,12 @@ def beh_to_scenario(beh, seed=0):
             if str(ev["cls"]) != "flow":
                 auto = True
                 for i, kind in enumerate(plan, 1):
-                    ops.append(["query", i, "A" if i % 2 else "B", i % 2] if kind == "q" else [kind])
+                    pq = (("A", 1, "ascii"), ("B", 1, "ascii"), ("A", 2, "ascii"))[(i - 1) % 3]
+                    ops.append(["query", i, list(pq), 1 if pq[0] == "A" else 0] if kind == "q" else [kind])
         elif name == "ClientQuery":
-            ops.append(["query", args[0], str(args[1]), 1 if str(args[1]) == "A" else 0])
+            ops.append(["query", args[0], list(qt(args[1])), 1 if str(args[1][0]) == "A" else 0])
         elif name == "UpstreamReply":
-            ops.append(["reply", args[0], str(args[1])])
+            ops.append(["reply", args[0], list(qt(args[1]))])
         elif name == "ClientBad":
             ops.append(["bad"])
         elif name == "ClientZero":
@@ -403,7 +447,8 @@ class Check(core.PropertyCheck):
         "decided by the harness's reference framer (zero length at a frame boundary)",
     )
 
-    BASE = {"Ids": frozenset({1, 2}), "Qs": frozenset({"A", "B"}), "BadKinds": frozenset({"bad", "zero"}),
+    A1, A2, B1, C2 = ("A", 1, "ascii"), ("A", 2, "ascii"), ("B", 1, "ascii"), ("C", 2, "idn")
+    BASE = {"Ids": frozenset({1, 2}), "Qs": frozenset({A1, B1}), "BadKinds": frozenset({"bad", "zero"}),
             "Policies": frozenset({"none", "respond", "error"}), "Streams": frozenset({("q",)}), "SWhole": True, "MaxSeg": 16}
 
     def mon_constants(self, tier):
@@ -425,11 +470,12 @@ class Check(core.PropertyCheck):
             # duplicate / late upstream replies after an exchange has completed
             "udp2": {**B, "Mode": "flow", "Trs": frozenset({"udp"}), "Ups": frozenset({True}), "MaxQ": 2, "MaxR": 2,
                      "MaxBad": 0, "Ids": frozenset({1}) if q else frozenset({1, 2}),
-                     "Qs": frozenset({"A"}) if q else frozenset({"A", "B"}),
-                     "Policies": frozenset({"none", "respond"})},
+                     # one name in two spellings (0x20 client) and an IDN name whose ACE label the codec re-spells
+                     "Qs": frozenset({self.A1, self.A2, self.C2}) if q else frozenset({self.A1, self.A2, self.B1, self.C2}),
+                     "Policies": frozenset({"none", "respond", "error"})},
             "tcp": {**B, "Mode": "flow", "Ids": frozenset({1}) if q else frozenset({1, 2}),
                     "Trs": frozenset({"tcp"}), "Ups": frozenset({True}), "MaxQ": 2, "MaxR": 1,
-                    "MaxBad": 1, "BadKinds": frozenset({"zero"}), "Qs": frozenset({"A"}) if q else frozenset({"A", "B"}),
+                    "MaxBad": 1, "BadKinds": frozenset({"zero"}), "Qs": frozenset({self.A1}) if q else frozenset({self.A1, self.A2}),
                     "Policies": frozenset({"none"}) if q else frozenset({"none", "respond"}), "MaxSeg": 3 if q else 16},
             "seg": {**B, "Mode": "seg", "Ids": frozenset({1, 2, 3}), "Trs": frozenset({"tcp"}), "Ups": frozenset({True}),
                     "MaxQ": 0, "MaxR": 0,
@@ -528,8 +574,11 @@ class Check(core.PropertyCheck):
                 plan.insert(rng.randint(0, n), "bad")
             cls = ("all_valid" if all(k == "q" for k in plan) else
                    "malformed_first" if plan[0] != "q" else "valid_then_malformed")
+            names = rng.sample(("A", "B", "C", "D"), 2)
             yield core.Scenario({"tr": "tcp", "upstream": True, "auto": True, "seed": rng.randrange(1 << 20),
                                  "bytes": True, "plan": plan, "cls": cls, "nruns": rng.randint(2, 3),
+                                 "qs": [list(rng.choice([k for k in QUESTIONS if k[0] in names and k != ("C", 2, "idn")]))
+                                        for _ in plan],
                                  "ids": [rng.randrange(65536) for _ in plan]}, source="random")
 
     def execute(self, sc):
